@@ -97,15 +97,25 @@ func situations(tr *ktrace.Trace) []crashSituation {
 func refMap(s sess.Session, idx []int) map[string]string {
 	m := map[string]string{}
 	for _, i := range idx {
-		op := s.Ops[i]
-		switch op.Op {
-		case "put", "putbytes":
-			m[op.K] = dumpEncode(sess.Value(op.V))
-		case "del":
-			delete(m, op.K)
-		}
+		refApply(m, s.Ops[i])
 	}
 	return m
+}
+
+var valueEnc = map[string]string{}
+
+func refApply(m map[string]string, op sess.Op) {
+	switch op.Op {
+	case "put", "putbytes":
+		e, ok := valueEnc[op.V]
+		if !ok {
+			e = dumpEncode(sess.Value(op.V))
+			valueEnc[op.V] = e
+		}
+		m[op.K] = e
+	case "del":
+		delete(m, op.K)
+	}
 }
 
 func dumpEncode(v []byte) string {
@@ -225,7 +235,13 @@ func writeSession(dir string, s sess.Session) string {
 
 func sessStr(s sess.Session) string {
 	var parts []string
-	for _, o := range s.Ops {
+	for i, o := range s.Ops {
+		if len(s.Ops) > 40 && i >= 8 && i < len(s.Ops)-3 {
+			if i == 8 {
+				parts = append(parts, fmt.Sprintf("... (%d more operations of the same pattern) ...", len(s.Ops)-11))
+			}
+			continue
+		}
 		parts = append(parts, o.String())
 	}
 	return strings.Join(parts, " ")
